@@ -52,6 +52,22 @@ def initDersGen (I : Inst) (m : Nat) (X : Vec) : List Rat :=
 theorem initDersGen_eq_model (I : Inst) (m : Nat) (X : Vec) :
     initDersGen I m X = initDersCode I.sys (I.mem m) X := rfl
 
+/-! variables with their own time stamps: interpolant at the collocation times, overwritten columns -/
+def ownInterpGen (X : Vec) (idxv : Nat → Nat) (nomv : Rat) (o : Own) (tsL : List Rat) : List Rat :=
+  tsL.map (fun t => nomv * outRat (interpSym o.mode
+    (o.times.zip ((List.range o.times.length).map (fun q => X (idxv q)))) t))
+
+theorem ownInterpGen_eq_model (X : Vec) (idxv : Nat → Nat) (nomv : Rat) (o : Own) (tsL : List Rat) :
+    ownInterpGen X idxv nomv o tsL = interpOwnAll X idxv nomv o tsL := rfl
+
+def ownColsGen (k j : Nat) : List (Nat × Nat) := [(j, 0), ((k + j), 1)]
+
+theorem ownColsGen_eq_model (k j : Nat) : ownColsGen k j = ownCols k j := by
+  unfold ownColsGen ownCols
+  first
+    | rfl
+    | (simp only [List.cons.injEq, Prod.mk.injEq, and_true, true_and]; omega)
+
 /-! collocation block: finite differences, residual calls, theta branch -/
 def collocBlockGen (F : Residual) (theta tinit : Rat) (par s0 s1 c0 c1 : List Rat) (ta tb : Rat) : List Rat :=
   if theta = 0 then (F s0 (((vsub s1 s0)).map (· / (tb - ta))) c0 (ta - tinit) par)
